@@ -815,6 +815,17 @@ func runC01(w *fw.W) {
 				lines = append(lines, []string{"Multi", "SINGLE", "Single", "MULTI", " multi", "multi ", "single;", "multi\t", "mul", "singles"}[rng.Intn(10)])
 			case 2:
 				lines = append(lines, "")
+			case 4:
+				if rng.Intn(3) == 0 {
+					// a very long line (one long token / many short ones)
+					if rng.Intn(2) == 0 {
+						lines = append(lines, `"`+strings.Repeat("a", 66000+rng.Intn(9000))+`".len`)
+					} else {
+						lines = append(lines, "["+strings.Repeat(`"`+strings.Repeat("e", 56)+`", `, 1200)+"1].len")
+					}
+					break
+				}
+				fallthrough
 			default:
 				l := strings.ReplaceAll(g.stmts(2), "\n", "; ")
 				for _, v := range pool.Vals {
@@ -826,12 +837,21 @@ func runC01(w *fw.W) {
 				lines = append(lines, l)
 			}
 		}
+		// the session ends with a sentinel line (after leaving a possibly open multi-line block and mode): every
+		// line of the input is answered, so the sentinel's answer must be in the transcript
+		sentinel := fmt.Sprintf("sentinel_%d_%d", k, rng.Intn(1000000))
+		lines = append(lines, "", "single", "", "'"+sentinel, "")
 		session := strings.Join(lines, "\n") + "\n"
-		w.Note(session)
+		w.Note(truncateMid(session, 3000))
+		var transcript string
 		key, detail := entryPoint(func() {
 			var out bytes.Buffer
 			runscript.StartREPL("pre := 1", strings.NewReader(session), &out)
+			transcript = out.String()
 		})
+		if key == "" && !strings.Contains(transcript, `"`+sentinel+`"`) {
+			key, detail = "stopped-before-the-end-of-input", "the REPL stopped answering before the end of its input: the last line `'"+sentinel+"` was never evaluated; transcript tail: "+truncateMid(transcript, 300)
+		}
 		b.n++
 		b.counters["entry_REPL_sessions"]++
 		b.counters["entry_REPL_lines"] += len(lines)
